@@ -29,9 +29,12 @@ def replica(args):
     root = os.path.join(common.tmpdir("c01-"), "run")
     rnd = random.Random(seed)
     try:
-        sysdrv.build_rundir(root, n, workers, steps if not restart_at else restart_at, seed=seed, moves=moves, cap=cap, maxlength=400, screen=0)
+        # restart_at: 0 (none), k (one restart at step k) or -k (a restart every k steps)
+        stops = [] if not restart_at else ([restart_at] if restart_at > 0 else list(range(-restart_at, steps, -restart_at)))
+        targets = stops + [steps]
+        sysdrv.build_rundir(root, n, workers, targets[0], seed=seed, moves=moves, cap=cap, maxlength=400, screen=0)
         rows = {}
-        legs = [("infretis.toml", None)] + ([("restart.toml", steps)] if restart_at else [])
+        legs = [("infretis.toml", None)] + [("restart.toml", t) for t in targets[1:]]
         for inp, st in legs:
             seg = sysdrv.Segment(root, inp=inp)
             if not seg.start(steps=st):
@@ -122,11 +125,12 @@ def main(tier, replay=None):
     exact = [(k + 1) / (k + 2) for k in range(n - 1)]
     steps = 1200 if q else 8000
     configs = [(["sh"] * 4, None, 1, 0), (["sh", "sh", "wf", "wf"], None, 2, steps // 2), (["sh", "wf", "wf", "sh"], 2.75, 3, 0),
-               (["sh", "sh", "sh", "wf"], None, 3, steps // 3)]
+               (["sh", "sh", "sh", "wf"], None, 3, steps // 3), (["sh", "wf", "wf", "sh"], 2.75, 2, -(steps // 24))]
     if not q:
         import itertools
         configs = [(["sh"] + list(m), None, 1 + i % 3, (steps // 2 if i % 2 else 0)) for i, m in enumerate(itertools.product(["sh", "wf"], repeat=3))]
-        configs += [(["sh", "wf", "wf", "sh"], 2.75, 2, steps // 2), (["sh", "sh", "wf", "sh"], 2.75, 3, 0)]
+        configs += [(["sh", "wf", "wf", "sh"], 2.75, 2, steps // 2), (["sh", "sh", "wf", "sh"], 2.75, 3, 0), (["sh", "sh", "wf", "sh"], 2.75, 2, -(steps // 100)),
+                    (["sh", "wf", "sh", "wf"], None, 3, -(steps // 50))]
     R = 16
     jobs = []
     rnd = random.Random(chk.seed + 101)
